@@ -56,60 +56,61 @@ mod longest_capped__topar;
 mod set_reach__gen;
 mod set_reach__runpar;
 mod cp__par;
-mod lex_dual_lat__par;
-mod lat_two_keys__ser;
-mod lat_pre_join__ser;
-mod lat_val_bound__ser;
-mod lat_input__run;
-mod lat_input__redecl;
-mod count_paths__topar;
-mod count_paths__srcred;
-mod neg_basic__to;
-mod neg_basic__srcto;
-mod neg_basic__ren;
-mod agg_depth__par;
-mod agg_lattice__topar;
-mod neg_rec_after__exppar;
-mod agg_empty__topar;
-mod agg_const_args__pari;
-mod disj__pari;
-mod disj__src2;
-mod disj__perm2;
-mod disj_nested__exp;
-mod rep_expr__par;
-mod multi_head_disj__exppar;
-mod mac_basic__pari;
-mod mac_basic__src2;
-mod mac_basic__exppar;
-mod mac_nested__pari;
-mod mac_local_names__ser;
-mod mac_block__exp;
-mod stress_lat__par;
-mod rnd_core_01__ser;
-mod rnd_core_03__pari;
-mod rnd_core_06__par;
-mod rnd_core_09__ser;
-mod rnd_core_11__pari;
-mod rnd_core_14__par;
-mod rnd_core_17__ser;
-mod rnd_core_19__pari;
-mod rnd_core_22__par;
-mod rnd_core_25__ser;
-mod rnd_core_27__pari;
-mod rnd_core_30__par;
-mod rnd_agg_03__ser;
-mod rnd_agg_05__pari;
-mod rnd_agg_08__par;
-mod rnd_agg_11__ser;
-mod rnd_agg_13__pari;
-mod rnd_prec_01__par;
-mod rnd_prec_02__topar;
-mod rnd_prec_04__pari;
-mod rnd_prec_06__ser;
-mod rnd_prec_07__to;
-mod rnd_prea_01__par;
-mod rnd_prea_04__ser;
-mod rnd_prea_06__pari;
+mod lat_tree__par;
+mod lex_lat__par;
+mod lat_multi_improve__ser;
+mod lat_pre_join__to;
+mod lat_input__ser;
+mod lat_input__src0;
+mod lat_input__srcpar;
+mod count_paths__gen;
+mod count_paths__runpar;
+mod neg_basic__mrt;
+mod neg_basic__init;
+mod neg_basic__exppar;
+mod agg_depth__topar;
+mod agg_user__pari;
+mod agg_bound_mix__pari;
+mod agg_empty_rel__pari;
+mod agg_pre_join__ser;
+mod disj__run;
+mod disj__redecl;
+mod disj__exp;
+mod pat_args__par;
+mod rep_expr__exppar;
+mod neg_in_disj__pari;
+mod mac_basic__run;
+mod mac_basic__redecl;
+mod mac_capture__pari;
+mod mac_gensym_disj__ser;
+mod mac_local_names__exp;
+mod mac_disj__par;
+mod stress_set__par;
+mod rnd_core_02__ser;
+mod rnd_core_04__pari;
+mod rnd_core_07__par;
+mod rnd_core_10__ser;
+mod rnd_core_12__pari;
+mod rnd_core_15__par;
+mod rnd_core_18__ser;
+mod rnd_core_20__pari;
+mod rnd_core_23__par;
+mod rnd_core_26__ser;
+mod rnd_core_28__pari;
+mod rnd_agg_01__par;
+mod rnd_agg_04__ser;
+mod rnd_agg_06__pari;
+mod rnd_agg_09__par;
+mod rnd_agg_12__ser;
+mod rnd_agg_14__pari;
+mod rnd_prec_01__topar;
+mod rnd_prec_03__pari;
+mod rnd_prec_05__ser;
+mod rnd_prec_06__to;
+mod rnd_prec_08__par;
+mod rnd_prea_02__par;
+mod rnd_prea_05__ser;
+mod rnd_prea_07__pari;
 
 fn lookup(name: &str) -> fn() -> Box<dyn Driven> {
    match name {
@@ -161,60 +162,61 @@ fn lookup(name: &str) -> fn() -> Box<dyn Driven> {
       "set_reach__gen" => set_reach__gen::make,
       "set_reach__runpar" => set_reach__runpar::make,
       "cp__par" => cp__par::make,
-      "lex_dual_lat__par" => lex_dual_lat__par::make,
-      "lat_two_keys__ser" => lat_two_keys__ser::make,
-      "lat_pre_join__ser" => lat_pre_join__ser::make,
-      "lat_val_bound__ser" => lat_val_bound__ser::make,
-      "lat_input__run" => lat_input__run::make,
-      "lat_input__redecl" => lat_input__redecl::make,
-      "count_paths__topar" => count_paths__topar::make,
-      "count_paths__srcred" => count_paths__srcred::make,
-      "neg_basic__to" => neg_basic__to::make,
-      "neg_basic__srcto" => neg_basic__srcto::make,
-      "neg_basic__ren" => neg_basic__ren::make,
-      "agg_depth__par" => agg_depth__par::make,
-      "agg_lattice__topar" => agg_lattice__topar::make,
-      "neg_rec_after__exppar" => neg_rec_after__exppar::make,
-      "agg_empty__topar" => agg_empty__topar::make,
-      "agg_const_args__pari" => agg_const_args__pari::make,
-      "disj__pari" => disj__pari::make,
-      "disj__src2" => disj__src2::make,
-      "disj__perm2" => disj__perm2::make,
-      "disj_nested__exp" => disj_nested__exp::make,
-      "rep_expr__par" => rep_expr__par::make,
-      "multi_head_disj__exppar" => multi_head_disj__exppar::make,
-      "mac_basic__pari" => mac_basic__pari::make,
-      "mac_basic__src2" => mac_basic__src2::make,
-      "mac_basic__exppar" => mac_basic__exppar::make,
-      "mac_nested__pari" => mac_nested__pari::make,
-      "mac_local_names__ser" => mac_local_names__ser::make,
-      "mac_block__exp" => mac_block__exp::make,
-      "stress_lat__par" => stress_lat__par::make,
-      "rnd_core_01__ser" => rnd_core_01__ser::make,
-      "rnd_core_03__pari" => rnd_core_03__pari::make,
-      "rnd_core_06__par" => rnd_core_06__par::make,
-      "rnd_core_09__ser" => rnd_core_09__ser::make,
-      "rnd_core_11__pari" => rnd_core_11__pari::make,
-      "rnd_core_14__par" => rnd_core_14__par::make,
-      "rnd_core_17__ser" => rnd_core_17__ser::make,
-      "rnd_core_19__pari" => rnd_core_19__pari::make,
-      "rnd_core_22__par" => rnd_core_22__par::make,
-      "rnd_core_25__ser" => rnd_core_25__ser::make,
-      "rnd_core_27__pari" => rnd_core_27__pari::make,
-      "rnd_core_30__par" => rnd_core_30__par::make,
-      "rnd_agg_03__ser" => rnd_agg_03__ser::make,
-      "rnd_agg_05__pari" => rnd_agg_05__pari::make,
-      "rnd_agg_08__par" => rnd_agg_08__par::make,
-      "rnd_agg_11__ser" => rnd_agg_11__ser::make,
-      "rnd_agg_13__pari" => rnd_agg_13__pari::make,
-      "rnd_prec_01__par" => rnd_prec_01__par::make,
-      "rnd_prec_02__topar" => rnd_prec_02__topar::make,
-      "rnd_prec_04__pari" => rnd_prec_04__pari::make,
-      "rnd_prec_06__ser" => rnd_prec_06__ser::make,
-      "rnd_prec_07__to" => rnd_prec_07__to::make,
-      "rnd_prea_01__par" => rnd_prea_01__par::make,
-      "rnd_prea_04__ser" => rnd_prea_04__ser::make,
-      "rnd_prea_06__pari" => rnd_prea_06__pari::make,
+      "lat_tree__par" => lat_tree__par::make,
+      "lex_lat__par" => lex_lat__par::make,
+      "lat_multi_improve__ser" => lat_multi_improve__ser::make,
+      "lat_pre_join__to" => lat_pre_join__to::make,
+      "lat_input__ser" => lat_input__ser::make,
+      "lat_input__src0" => lat_input__src0::make,
+      "lat_input__srcpar" => lat_input__srcpar::make,
+      "count_paths__gen" => count_paths__gen::make,
+      "count_paths__runpar" => count_paths__runpar::make,
+      "neg_basic__mrt" => neg_basic__mrt::make,
+      "neg_basic__init" => neg_basic__init::make,
+      "neg_basic__exppar" => neg_basic__exppar::make,
+      "agg_depth__topar" => agg_depth__topar::make,
+      "agg_user__pari" => agg_user__pari::make,
+      "agg_bound_mix__pari" => agg_bound_mix__pari::make,
+      "agg_empty_rel__pari" => agg_empty_rel__pari::make,
+      "agg_pre_join__ser" => agg_pre_join__ser::make,
+      "disj__run" => disj__run::make,
+      "disj__redecl" => disj__redecl::make,
+      "disj__exp" => disj__exp::make,
+      "pat_args__par" => pat_args__par::make,
+      "rep_expr__exppar" => rep_expr__exppar::make,
+      "neg_in_disj__pari" => neg_in_disj__pari::make,
+      "mac_basic__run" => mac_basic__run::make,
+      "mac_basic__redecl" => mac_basic__redecl::make,
+      "mac_capture__pari" => mac_capture__pari::make,
+      "mac_gensym_disj__ser" => mac_gensym_disj__ser::make,
+      "mac_local_names__exp" => mac_local_names__exp::make,
+      "mac_disj__par" => mac_disj__par::make,
+      "stress_set__par" => stress_set__par::make,
+      "rnd_core_02__ser" => rnd_core_02__ser::make,
+      "rnd_core_04__pari" => rnd_core_04__pari::make,
+      "rnd_core_07__par" => rnd_core_07__par::make,
+      "rnd_core_10__ser" => rnd_core_10__ser::make,
+      "rnd_core_12__pari" => rnd_core_12__pari::make,
+      "rnd_core_15__par" => rnd_core_15__par::make,
+      "rnd_core_18__ser" => rnd_core_18__ser::make,
+      "rnd_core_20__pari" => rnd_core_20__pari::make,
+      "rnd_core_23__par" => rnd_core_23__par::make,
+      "rnd_core_26__ser" => rnd_core_26__ser::make,
+      "rnd_core_28__pari" => rnd_core_28__pari::make,
+      "rnd_agg_01__par" => rnd_agg_01__par::make,
+      "rnd_agg_04__ser" => rnd_agg_04__ser::make,
+      "rnd_agg_06__pari" => rnd_agg_06__pari::make,
+      "rnd_agg_09__par" => rnd_agg_09__par::make,
+      "rnd_agg_12__ser" => rnd_agg_12__ser::make,
+      "rnd_agg_14__pari" => rnd_agg_14__pari::make,
+      "rnd_prec_01__topar" => rnd_prec_01__topar::make,
+      "rnd_prec_03__pari" => rnd_prec_03__pari::make,
+      "rnd_prec_05__ser" => rnd_prec_05__ser::make,
+      "rnd_prec_06__to" => rnd_prec_06__to::make,
+      "rnd_prec_08__par" => rnd_prec_08__par::make,
+      "rnd_prea_02__par" => rnd_prea_02__par::make,
+      "rnd_prea_05__ser" => rnd_prea_05__ser::make,
+      "rnd_prea_07__pari" => rnd_prea_07__pari::make,
       _ => panic!("no such program variant in this shard: {}", name),
    }
 }
